@@ -74,6 +74,13 @@ ANIONS = ["[Cl-]", "[Br-]", "[I-]", "[F-]", "[OH-]", "CC(=O)[O-]", "[O-][N+](=O)
           "[O-]P(=O)([O-])[O-]", "[BH4-]", "[O-]Cl(=O)(=O)=O"]
 
 
+HEAVY += ["[Pu+4]", "[Np+4]", "[Bk+3]", "[No+2]", "[Db]", "[Sg]", "[Cn]", "[Fl]", "[Ts-]", "[Rn]",
+          "[At-]", "[Po]", "O=[Pu+2]=O", "F[Np](F)(F)F", "[Md+3]", "[Fm+3]"]
+HEAVY = [s for s in HEAVY if oracle.in_domain_smiles(s)]
+CATIONS = [s for s in CATIONS if oracle.in_domain_smiles(s)]
+ANIONS = [s for s in ANIONS if oracle.in_domain_smiles(s)]
+
+
 def _charge(s):
     return oracle.comp(s)[1]
 
@@ -131,6 +138,11 @@ def heavy_unbalanced(rng, n):
     out = []
     for i in range(n):
         a, b = rng.sample(HEAVY, 2)
+        if rng.random() < 0.7:  # same charge, other element: only the symbol table can tell
+            same = [x for x in HEAVY if x != a and oracle.comp(x)[1] == oracle.comp(a)[1]
+                    and Chem.MolFromSmiles(x).GetNumAtoms() == 1 == Chem.MolFromSmiles(a).GetNumAtoms()]
+            if same:
+                b = rng.choice(same)
         if oracle.comp(a) == oracle.comp(b):
             continue
         k = rng.randrange(3)
